@@ -21,6 +21,8 @@ var controlExpect = []struct {
 	{"R1", "CtlMapRangeFirstWins#range-", "violated"},
 	{"R1", "CtlMapRangeSorted#range-", "discharged"},
 	{"R1", "CtlMapRangeToMap#range-", "discharged"},
+	{"R1", "CtlMapRangeSortedByPrefix#range-", "violated"},
+	{"R1", "CtlMapRangeSortedWhole#range-", "discharged"},
 	{"R2", "CtlClock#time.Now", "violated"},
 	{"R2", "CtlRand#math/rand.Int", "violated"},
 	{"R2", "CtlNumCPU#runtime.NumCPU", "violated"},
